@@ -717,10 +717,10 @@ var emitProps = map[string]*emitPropSpec{
 		OutOfReach: []string{"Python / C++ factory blocks (emitted inside a packet-level function that exceeds the cell executor's budget)", "run-time behaviour on an unmapped key"}},
 	"C06": {Decided: []string{"checksum cells: the encode step depends on the algorithm name, on the field's declared type and on the byte order; the decode step reads with the same type and byte order dependence"},
 		OutOfReach: []string{"which bytes the runtime service sums; the unregistered-name fallback at run time"}},
-	"C15": {Decided: []string{"Lua dissector emitters (main dissector, sub dissector, field definitions), per cell and for every documented prefix type and byte order: every read buf(offset, W) of a step is followed by offset = offset + W with the same W (advance); the offset returned by a nested dissector is assigned (nested) and every emitted sub dissector ends in `return offset` (returns); every variable a step uses is a parameter or local of the emitted function (scope); W is the wire size of the declared type, a prefix is fetched with the size and accessor of the configured prefix type and byte order and the payload width is that fetched variable (width); every fields.X a step displays is defined by the field-definition emitter (defines); the field is named, steps come in declaration order, the step depends on exactly the configuration attributes it must (name / order / dep / le, shared with C02 / C07)"},
+	"C15": {Decided: []string{"Lua dissector emitters (main dissector, sub dissector, field definitions), per cell and for every documented prefix type and byte order: every read buf(offset, W) of a step is followed by offset = offset + W with the same W (advance); the offset returned by a nested dissector is assigned (nested) and every emitted sub dissector ends in `return offset` (returns); every variable a step uses is a parameter or local of the emitted function (scope); W is the wire size of the declared type, a prefix is fetched with the size and accessor of the configured prefix type and byte order and the payload width is that fetched variable (width); every fields.X a step displays is defined by the field-definition emitter (defines); every key of a match table is compared with the key variable (key-compared); the field is named, steps come in declaration order, the step depends on exactly the configuration attributes it must (name / order / dep / le, shared with C02 / C07)"},
 		OutOfReach: []string{"the (field, offset, length) sequence Wireshark shows when the emitted Lua is interpreted on a canonical encoding: no Lua interpreter and no contract on a Go function can decide it; the predicates above are the template-level conditions the property needs", "that a `local function dissect_x` precedes every call of dissect_x for all inputs: checked on enumerated programs only (bounded, not counted as proved)"}},
-	"C17": {Decided: []string{"unit-test emitters of Go, Rust, Java, Python, C++, per cell: the sample message gives the member under test a value on every path (scalars, strings, nested and inline packets, match payloads and their repeated forms); no placeholder / unsupported marker text; the sample value of a char[n] member is built from the declared n"},
-		OutOfReach: []string{"the verdict of the five foreign test runners on the emitted tests against the codec runtimes (not in the repository): not a statement over Go functions", "that the emitted test files are valid programs for all inputs: Go and Python test files are parsed on enumerated programs only (bounded, not counted as proved); Rust, Java and C++ need toolchains / runtime headers that are not installed", "the text of nested sample builders reached through recursion (summarised by the path executor)"}},
+	"C17": {Decided: []string{"unit-test emitters of Go, Rust, Java, Python, C++, per cell: the sample message gives the member under test a value on every path (scalars, strings, nested and inline packets, match payloads and their repeated forms); no placeholder / unsupported marker text; the sample value of a char[n] member is built from the declared n; the sample of a repeated member is a collection (the emitted text differs from the text for the same member unrepeated)"},
+		OutOfReach: []string{"the verdict of the five foreign test runners on the emitted tests against the codec runtimes (not in the repository): not a statement over Go functions", "that the emitted test files are valid programs for all inputs: Go and Python test files are parsed and checked for unbound names, Java test files for their file name, on enumerated programs only (bounded, not counted as proved); Rust and C++ (and Java beyond the file name) need toolchains / runtime sources that are not installed", "the text of nested sample builders reached through recursion (summarised by the path executor)"}},
 	"C07": {Decided: []string{"all six targets: no cell makes an emitter skip the field (name obligation) or emit placeholder / 'unsupported' marker text, on any feasible path"},
 		OutOfReach: []string{"that every emitted file is a valid program of its target language"}},
 }
@@ -916,8 +916,8 @@ func checkEmit(prop, tier string, seed int, updateLedger bool) int {
 		"exhaustive":             false,
 	}
 	if bounded > 0 && prop == "C17" {
-		cov["bounded_standins"] = []string{"BOUNDED (not counted as proved): the real Go and Python generators on enumerated programs: every emitted *_test.go parses with go/parser, every emitted *_test.py parses with python3 ast"}
-		cov["bounded_standin_run"] = map[string]interface{}{"bound": fmt.Sprintf("%d programs enumerated in goverif/emittest.go (testPrograms), 2 languages", len(testPrograms())), "cases": bounded, "failing": boundedFailing}
+		cov["bounded_standins"] = []string{"BOUNDED (not counted as proved): the real Go, Python and Java generators on enumerated programs: every emitted *_test.go parses with go/parser and uses no undeclared identifier, every emitted *_test.py parses with python3 ast and loads no unbound name, every Java test file is named after the public class it declares"}
+		cov["bounded_standin_run"] = map[string]interface{}{"bound": fmt.Sprintf("%d programs enumerated in goverif/emittest.go (testPrograms), 3 languages", len(testPrograms())), "cases": bounded, "failing": boundedFailing}
 	} else if bounded > 0 {
 		cov["bounded_standins"] = []string{"BOUNDED (not counted as proved): the real LuaWspGenerator.Generate on enumerated programs (declaration order x reference kind x nesting): whole-file advance / scope / defines / returns, and a `local function dissect_x` precedes every call of dissect_x"}
 		cov["bounded_standin_run"] = map[string]interface{}{"bound": fmt.Sprintf("%d programs enumerated in goverif/lua.go (luaPrograms), 5 predicates each", len(luaPrograms())), "cases": bounded, "failing": boundedFailing}
